@@ -20,7 +20,7 @@ RULE = (
     "(db float conversion into the model's default unit, or unchanged; amounts 2.5, 3, 0 and 0.0, length / time / temperature incl. degC and degF into K) and the exact sequence of on_current / "
     "on_unit_changed notifications (re-selecting the current system may or may not notify; after removing the current "
     "system any registered system or none may be selected); a rejected call leaves the model-visible state and the "
-    "notification log untouched. Non-trivial = history with a removal or a default-unit change after a change of the "
+    "notification log untouched. Mappings may name a unit of another quantity type (they are taken as given): converting into such a unit, or from a unit that is not a unit of the category, raises. Non-trivial = history with a removal or a default-unit change after a change of the "
     "current system; key = the history."
 )
 ASSUMPTIONS = [
@@ -222,9 +222,19 @@ def run_history(ctx, seq, fail, db):
         # (amounts include zero and a unit with an offset: 0 degC is 273.15 K, not "nothing to convert")
         for cat, unit, x in (("length", "ft", 2.5), ("time", "min", 3.0), ("temperature", "degC", 0.0), ("temperature", "degF", -40.0), ("length", "ft", 0.0), ("time", "min", 0)):
             ctx.ev()
-            want = (db.Convert(cat, unit, cm[cat], x), cm[cat]) if cat in cm else (x, unit)
-            got = mgr.ConvertToCurrent(cat, unit, x)
-            if tuple(got) != want:
+            if cat in cm and cm[cat] not in db.GetUnits(db.GetCategoryQuantityType(cat)):
+                # the current system names a unit of another quantity type for this category: nothing can be
+                # re-expressed in it
+                want = "raises"
+            else:
+                want = (db.Convert(cat, unit, cm[cat], x), cm[cat]) if cat in cm else (x, unit)
+            try:
+                got = tuple(mgr.ConvertToCurrent(cat, unit, x))
+            except Exception as e:
+                if core.tree_frame(e) is None or want != "raises":
+                    raise
+                got = "raises"
+            if got != want:
                 fail("convert_to_current_wrong", case, "ConvertToCurrent(%r,%r,%r) = %r, expected %r (current %r with mapping %r)" % (cat, unit, x, got, want, M.cur, cm))
                 return flags
             if mgr.GetCategoryDefaultUnit(cat) != cm.get(cat):
@@ -234,13 +244,29 @@ def run_history(ctx, seq, fail, db):
             if mgr.GetQuantityDefaultUnit(q) != cm.get(cat, unit):
                 fail("quantity_default_unit_wrong", case, "GetQuantityDefaultUnit(%r) = %r, expected %r" % (q, mgr.GetQuantityDefaultUnit(q), cm.get(cat, unit)))
                 return flags
+        # an amount written in a unit that is not a unit of the category cannot be re-expressed in the category's current
+        # unit, whatever that is (a mapping is not validated, so the current unit may be as foreign as the given one):
+        # the call raises; without a current unit for the category the amount comes back as given
+        for cat, unit, x in ((("length", "kg", 2.0), ("time", "g", 1.0))[step % 2],):
+            ctx.ev()
+            try:
+                got = tuple(mgr.ConvertToCurrent(cat, unit, x))
+            except Exception as e:
+                if core.tree_frame(e) is None:
+                    raise
+                got = "raises"
+            want = "raises" if (cat in cm and cm[cat] != unit) else (x, unit)
+            if got != want:
+                fail("convert_to_current_foreign_unit", case, "ConvertToCurrent(%r,%r,%r) = %r, expected %r (current %r with mapping %r)" % (cat, unit, x, got, want, M.cur, cm))
+                return flags
     return flags
 
 
 def gen_op():
     ids = st.sampled_from(["a", "b", "c"])
     cats = st.sampled_from(["length", "time", "length", "time", "temperature"])
-    units = {"length": ["m", "cm", "km", "ft"], "time": ["s", "min", "h"], "temperature": ["K", "degF", "degC", "degR"]}
+    # (one foreign default unit per category: mappings are taken as given)
+    units = {"length": ["m", "cm", "km", "ft", "g"], "time": ["s", "min", "h", "kg"], "temperature": ["K", "degF", "degC", "degR"]}
     mapping = st.one_of(
         st.sampled_from(["none", "len", "both", "shared"]),
         st.fixed_dictionaries({}, optional={"length": st.sampled_from(units["length"]), "time": st.sampled_from(units["time"]), "temperature": st.sampled_from(units["temperature"])}),
